@@ -693,10 +693,118 @@ pub fn generate(cfg: &Cfg) -> Vec<String> {
     cases
 }
 
+/// End-to-end stream for the last clause of the property (oracle only; the Lean side of it is
+/// LMV.Props.Bridge): a buffer is striped several times (reused), configured, scored with a PSSM
+/// whose wildcard column is -inf, and the float maximum must be the best valid position's score.
+/// case: c07e2e <stripe arm> <score/max arm> <M> <4*M f32 bits> <nseq> (<n> <syms…>)…
+fn exec_e2e(line: &str) -> Result<(), String> {
+    use lightmotif::abc::{Alphabet, Background, Dna, Symbol};
+    use lightmotif::dense::DenseMatrix;
+    use lightmotif::pli::Stripe;
+    use lightmotif::pwm::ScoringMatrix;
+    use lightmotif::seq::StripedSequence;
+    let t: Vec<&str> = line.split_whitespace().collect();
+    let (sarm, arm) = (t[1], t[2]);
+    let m: usize = t[3].parse().unwrap();
+    let mut rows: Vec<[f32; 5]> = Vec::new();
+    for j in 0..m {
+        let mut r = [f32::NEG_INFINITY; 5];
+        for a in 0..4 {
+            r[a] = f32::from_bits(t[4 + 4 * j + a].parse().unwrap());
+        }
+        rows.push(r);
+    }
+    let pssm = ScoringMatrix::<Dna>::new(Background::uniform(), DenseMatrix::from_rows(rows.iter()));
+    let mut k = 4 + 4 * m;
+    let nseq: usize = t[k].parse().unwrap();
+    k += 1;
+    let mut st = StripedSequence::<Dna, lightmotif::num::U32>::default();
+    let mut cur: Vec<usize> = Vec::new();
+    for _ in 0..nseq {
+        let n: usize = t[k].parse().unwrap();
+        cur = t[k + 1..k + 1 + n].iter().map(|x| x.parse().unwrap()).collect();
+        let syms: Vec<_> = cur.iter().map(|&i| Dna::symbols()[i]).collect();
+        assert!(verif::force_backend(sarm));
+        Pipeline::<Dna, _>::dispatch().stripe_into(&syms, &mut st);
+        verif::clear();
+        k += 1 + n;
+    }
+    st.configure(&pssm);
+    assert!(verif::force_backend(arm));
+    let scores = pssm.score(&st);
+    let got = scores.max();
+    verif::clear();
+    let l = cur.len();
+    let mut best: Option<f32> = None;
+    if l >= m {
+        for i in 0..=l - m {
+            let mut sc = 0.0f32;
+            for j in 0..m {
+                sc += rows[j][cur[i + j]];
+            }
+            best = Some(match best {
+                None => sc,
+                Some(b) => if sc > b { sc } else { b },
+            });
+        }
+    }
+    let _ = Symbol::as_index(&Dna::symbols()[0]);
+    match (best, got) {
+        (None, None) => Ok(()),
+        (None, Some(g)) => Err(format!("no valid position but max = {:e}", g)),
+        (Some(b), None) => Err(format!("best valid score {:e} but max = None", b)),
+        (Some(b), Some(g)) => {
+            if b.is_finite() && g != b {
+                Err(format!("float maximum {:e} is not the best valid position's score {:e} (a cell past the last valid position holds a finite score)", g, b))
+            } else {
+                Ok(())
+            }
+        }
+    }
+}
+
+fn generate_e2e(rng: &mut Rng, cases: &mut Vec<String>, count: usize) {
+    let arms = ["generic", "sse2", "avx2"];
+    for _ in 0..count {
+        let m = rng.range(1, 8);
+        let mut line = format!("c07e2e {} {} {}", rng.pick(&arms), rng.pick(&arms), m);
+        for _ in 0..4 * m {
+            // all-negative scores: a stale finite cell in the padding then beats nothing but shows
+            let v = -(rng.below(800) as f32) / 64.0 - 0.5;
+            line.push_str(&format!(" {}", v.to_bits()));
+        }
+        let nseq = rng.range(1, 3);
+        line.push_str(&format!(" {}", nseq));
+        // a longer sequence first, then shorter ones re-using the buffer (stale cells if padding is skipped)
+        let mut len = rng.range(40, 400);
+        for _ in 0..nseq {
+            line.push_str(&format!(" {}", len));
+            for _ in 0..len {
+                line.push_str(&format!(" {}", rng.below(4)));
+            }
+            len = rng.range(m.max(1), len.max(m + 1));
+        }
+        cases.push(line);
+    }
+}
+
 pub fn run(cfg: &Cfg) {
-    let cases = crate::replay_cases(cfg).unwrap_or_else(|| generate(cfg));
+    let cases = crate::replay_cases(cfg).unwrap_or_else(|| {
+        let mut v = generate(cfg);
+        let mut rng = Rng::new(cfg.seed ^ 0xE2E);
+        generate_e2e(&mut rng, &mut v, (if cfg.thorough { 2000 } else { 200 }) * cfg.boost);
+        v
+    });
     let mut out = Out::new(&cfg.out);
     for c in &cases {
+        if c.starts_with("c07e2e ") {
+            out.stat("e2e(stripe-reuse,configure,score,max)");
+            out.announce(c);
+            let v = guarded(|| exec_e2e(c)).unwrap_or_else(|_| Err("panic".into()));
+            verif::clear();
+            out.case(c, "oracle-only", Some(v), true);
+            continue;
+        }
         if c.starts_with("c07isa ") {
             out.stat("isa");
             let ans = exec_isa(c);
